@@ -115,7 +115,9 @@ class JSONListFormatter(SequenceFormatter):
         instances where a list contains a dict.
 
         """
-        self.parent.print(*args, **kwargs)
+        # We were asked to print the node itself (e.g., as one side of a Replace edit),
+        # so the parent must not print an edit associated with the node a second time
+        self.parent.print(*args, with_edits=False, **kwargs)
 
 
 class JSONDictFormatter(SequenceFormatter):
@@ -160,7 +162,9 @@ class JSONDictFormatter(SequenceFormatter):
         instances where a dict contains a list.
 
         """
-        self.parent.print(*args, **kwargs)
+        # We were asked to print the node itself (e.g., as one side of a Replace edit),
+        # so the parent must not print an edit associated with the node a second time
+        self.parent.print(*args, with_edits=False, **kwargs)
 
 
 class JSONStringFormatter(StringFormatter):
